@@ -103,8 +103,21 @@ R["C07"] = {"harnesses": [H("H_MergeMerge", MM_Q, None, ["mm/end", "mm/non-objec
             "anchors": ["v5.doMergePatch", "v5.mergeDocs", "v5.MergeMergePatches", "v5.merge"],
             "assumptions": ["member names distinct within an object", "compatibility condition of the property"],
             "outside_bound": ["larger patches/documents than the listed families"]}
-R["C16"] = {"harnesses": [H("H_C16_Valid", ns(0, 5), ns(0, 7), ["C16/valid/accept", "C16/valid/reject"], "every byte string of exactly n bytes, all n bytes unconstrained")],
-            "anchors": ["internal/json.Valid", "internal/json.checkValid"], "assumptions": [], "outside_bound": ["byte strings longer than the listed n"]}
+R["C16"] = {"harnesses": [
+    H("H_C16_Valid", ns(0, 5), ns(0, 7), ["C16/valid/accept", "C16/valid/reject"], "Valid vs the reference recogniser on every byte string of exactly n bytes, all n bytes unconstrained"),
+    H("H_C16_Codec", ns(0, 4), ns(0, 6), ["C16/codec/accept", "C16/codec/reject"], "Compact, Indent and Unmarshal(into any) accept iff the reference recogniser does, HTMLEscape does not panic: every byte string of n bytes"),
+    H("H_C16_Template", [{"ntemplates": 7, "k": 1}], [{"ntemplates": 7, "k": 1}, {"ntemplates": 7, "k": 2}], ["C16/template/end", "C16/codec/accept", "C16/codec/reject"],
+      "7 well-formed templates (6-32 bytes: nesting, numbers with fraction/exponent, escapes, multi-byte UTF-8) with k unconstrained bytes inserted at, or overwriting from, every position"),
+    H("H_C16_Depth", [{}], None, ["C16/depth/pushed", "C16/depth/limit-hit", "C16/depth/popped", "C16/depth/end"],
+      "one scanner step from a parse stack of SYMBOLIC depth d in [0,10000] with arbitrary contents (abstract slice: length a 64-bit variable, contents an SMT array) and an unconstrained byte: push succeeds iff d < 10000, push/pop change the depth by exactly one, no out-of-range access for any d"),
+    H("H_C16_Gates", [{}], None, ["C16/gates/accept", "C16/gates/reject"], "8 public entry points (Apply object/array document, DecodePatch, MergePatch document/patch, MergeMergePatches, CreateMergePatch, Equal): a well-formed argument with one unconstrained byte prepended and one appended is accepted when both are JSON whitespace and rejected when the text is no longer well-formed"),
+    H("H_Bytes_ApplyDoc", ns(0, 3), ns(0, 5), ["bytes/applydoc/malformed", "bytes/applydoc/wellformed"], "Apply on every document of n bytes"),
+    H("H_Bytes_Merge", ns(0, 3), ns(0, 5), ["bytes/merge/malformed", "bytes/merge/wellformed"], "merge functions with one argument = every byte string of n bytes"),
+    H("H_Bytes_Decode", ns(0, 4), ns(0, 6), ["bytes/decode/malformed", "bytes/decode/wellformed"], "DecodePatch on every byte string of n bytes"),
+    H("H_Bytes_Equal", ns(0, 3, m=-1), ns(0, 5, m=-1), ["bytes/equal/malformed"], "Equal false on every malformed string of n bytes")],
+    "anchors": ["internal/json.Valid", "internal/json.checkValid", "internal/json.stateBeginValue", "internal/json.stateEndValue", "(*github.com/evanphx/json-patch/v5/internal/json.scanner).pushParseState", "internal/json.Compact", "internal/json.Indent", "internal/json.Unmarshal"],
+    "assumptions": ["Apply on the EMPTY document returns an empty result and no error; this is pinned by the repository's own Cases[0] and listed as open known finding KF-empty-doc"],
+    "outside_bound": ["fully symbolic strings longer than the listed n; longer strings only through the template family", "nesting between the explored stack depths is covered by the one-step argument only (not by whole texts 10000 levels deep)"]}
 
 # ---- options families (H_Apply with optmask: 1 AllowMissingPathOnRemove, 2 EnsurePathExistsOnAdd, 4 EscapeHTML, 8 copy-size limit)
 HTML_SHAPES = 57344  # shapes 13,14,15: strings over printable ASCII incl. < > &
@@ -155,6 +168,14 @@ R["C08"] = {"harnesses": apply_harnesses(extra_quick=[C12_K1, C08_K1_OPTS], extr
     "anchors": AP_ANCHORS + ["(github.com/evanphx/json-patch/v5.Patch).ApplyIndentWithOptions"],
     "assumptions": ["error classes come from the reference evaluator: testFailed only when a comparison was made and came out unequal; missing for absent members and unreachable parents; copyLimit from the running escaped total"],
     "outside_bound": AP_OUTSIDE}
+
+R["C11"] = {"harnesses": [
+    H("H_DecodePatch", [{"elements": 1, "pad": 1}], [{"elements": 1, "pad": 1}, {"elements": 2, "pad": 0}], ["decode/accepted", "decode/rejected", "decode/end"],
+      "patch texts assembled member by member: root kind (array of operations / array with a non-object element / non-array root / empty array), and for each of op, path, from, value: absent, null, string, number, object, array or present under a case-renamed key; optional extra member, optional duplicated path; the op string is one of the six names or 3/4/6 symbolic letters (any case); one symbolic whitespace byte before and after; accessors compared with the generating members"),
+    H("H_Bytes_Decode", ns(0, 4), ns(0, 6), ["bytes/decode/malformed", "bytes/decode/wellformed"], "every byte string of n bytes: malformed, non-array roots and non-object elements rejected; the empty array accepted with any whitespace")],
+    "anchors": ["v5.DecodePatch", "v5.validateOperation", "v5.validatePatch", "(github.com/evanphx/json-patch/v5.Operation).Kind", "(github.com/evanphx/json-patch/v5.Operation).Path", "(github.com/evanphx/json-patch/v5.Operation).From", "(github.com/evanphx/json-patch/v5.Operation).ValueInterface"],
+    "assumptions": ["the JSON text null (decodes to an empty patch) is outside the stated domain", "duplicated members are asserted only when both copies fall in the same accept/reject class (here: path duplicated with the same string)"],
+    "outside_bound": ["more than 2 elements", "op strings of other lengths, non-letter op strings"]}
 
 if __name__ == "__main__":
     json.dump(R, open(os.path.join(V, "harness", "registry.json"), "w"), indent=1)
